@@ -57,6 +57,7 @@ type closureInfo struct {
 
 // Verifier verifies one function against its contract.
 type Verifier struct {
+	exitChecked    map[int]bool         // loops whose exit clauses were emitted on at least one path
 	rangeEntryHas  map[ssa.Value]string // per map range: presence array of the map when the range started
 	prog           *Program
 	fn             *ssa.Function
@@ -561,6 +562,14 @@ func (v *Verifier) run() (res *FuncResult) {
 				panic(r)
 			}
 		}
+		// an exit clause that was never put to the test on any path would pass silently: refuse it
+		if res.ContractErr == "" && res.Unsupported == "" {
+			for _, lo := range v.loops {
+				if lo.spec != nil && len(lo.spec.Exits) > 0 && !v.exitChecked[lo.ordinal] {
+					res.ContractErr = fmt.Sprintf("loop %d: exit clause is never checked (the loop is left only by returns, or directly into a returning block)", lo.ordinal)
+				}
+			}
+		}
 		res.Obls = v.obls
 		res.Notes = v.notes
 		res.Paths = v.paths
@@ -616,6 +625,15 @@ func (v *Verifier) run() (res *FuncResult) {
 			st.assume("(> " + val.T + " 0)")
 		}
 		v.freeDeref[fv.Name()] = val
+	}
+	// the captured variables of a closure are different variables: their cells are pairwise distinct
+	for i, a := range v.fn.FreeVars {
+		for _, b := range v.fn.FreeVars[i+1:] {
+			va, vb := st.regs[a], st.regs[b]
+			if va.Sort == "Int" && vb.Sort == "Int" && va.T != "" && vb.T != "" {
+				st.assume(not(eq(va.T, vb.T)))
+			}
+		}
 	}
 	v.entry = st.snapshot()
 	v.assumeAxioms(st)
@@ -814,6 +832,10 @@ func (v *Verifier) execBlock(b *ssa.BasicBlock, pred *ssa.BasicBlock, st *State)
 			}
 			se := v.specEnv(st, v.loopVars(lo, st, lo.phis, cur))
 			se.loopSt = st.loopEntry[lo.ordinal]
+			if v.exitChecked == nil {
+				v.exitChecked = map[int]bool{}
+			}
+			v.exitChecked[lo.ordinal] = true
 			for _, ex := range lo.spec.Exits {
 				v.emit(st, "exit", fmt.Sprintf("%d.%s", lo.ordinal, ex.Label), se.evalBool(ex.E), ex.Props, "on leaving loop "+fmt.Sprint(lo.ordinal)+": "+ex.Text, nil)
 			}
